@@ -22,6 +22,7 @@ from collections import Counter
 from . import batch, report, simpool
 from .decisions import Decisions, run_seed
 from .runner import run_entry
+from .summary import exact_digest
 
 
 class Ctx:
@@ -102,7 +103,7 @@ def make_job_fn(check):
             if out.status == "skipped":
                 stats["skipped"][out.skipped] += 1
                 continue
-            stats["digests"].append(out.events_digest[:12])
+            stats["digests"].append(out.events_digest[:12] + ":" + (exact_digest(out.summary)[:12] if out.status == "ok" else str(out.exc_class)))
             for kk, vv in (out.fired or {}).items():
                 stats["fired"][kk] += vv
             for kk, vv in (out.probes or {}).items():
@@ -227,7 +228,15 @@ def run_check(check, tier, replay=None):
     except batch.HarnessError as e:
         print(f"HARNESS-ERROR property={prop} {e}", file=sys.stderr)
         return 2
-    return conclude(check, tier, seed, results, timer)
+    extra = None
+    if os.environ.get("VERIF_SKIP_DETERMINISM") != "1" and float(os.environ.get("VERIF_SCALE", "1") or 1) == 1.0:
+        d = determinism_selftest(check, tier, njobs=plan.get("determinism_jobs", 3), variants=plan.get("determinism_variants", 6))
+        extra = {"determinism_selftest": d}
+        if d["status"] != "identical":
+            print(f"HARNESS-ERROR property={prop} determinism self-test: {d}", file=sys.stderr)
+            conclude(check, tier, seed, results, timer, extra_coverage=extra)
+            return 2
+    return conclude(check, tier, seed, results, timer, extra_coverage=extra)
 
 
 def conclude(check, tier, seed, results, timer, extra_coverage=None):
@@ -373,3 +382,37 @@ def run_replay(check, path):
         return 1
     print(f"replay {path}: no violation with key {key} (other violations: {[report.key_str(v['key']) for v in viols]})")
     return 0
+
+
+def emit_digests(check, tier, njobs, variants):
+    """Digest of every run of the first njobs jobs (used by the determinism self-test)."""
+    import pyimpspec  # noqa: F401
+    from . import seams
+
+    seams.install()
+    seed = report.verif_seed()
+    plan = check.PLAN[tier]
+    jobs = [{"index": j, "tier": tier, "seed": seed, "variants": variants, "wall_budget": 1e9, "min_variants": variants}
+            for j in range(njobs)]
+    results = batch.run_jobs(make_job_fn(check), jobs, wall_limit=3000.0, per_job_limit=1500.0, init=_init_child)
+    return {str(j): r["digests"] for j, r in enumerate(results)}
+
+
+def determinism_selftest(check, tier, njobs=3, variants=6):
+    """Same seeds: in this process tree, then in a fresh interpreter under another
+    PYTHONHASHSEED and another harness worker count. Event-log and result digests must be identical."""
+    import subprocess
+
+    a = emit_digests(check, tier, njobs, variants)
+    env = dict(os.environ)
+    env["PYTHONHASHSEED"] = "7" if env.get("PYTHONHASHSEED") != "7" else "11"
+    env["VERIF_WORKERS"] = "2"
+    cmd = [sys.executable, os.path.join(report.VERIF, "check.py"), check.PROP, "--tier", tier, "--emit-digests", f"{njobs},{variants}"]
+    p = subprocess.run(cmd, capture_output=True, text=True, env=env, cwd=report.VERIF, timeout=3000)
+    if p.returncode != 0:
+        return {"status": "harness-error", "detail": p.stderr[-500:]}
+    b = json.loads(p.stdout.strip().splitlines()[-1])
+    same = a == b
+    return {"status": "identical" if same else "DIVERGED", "jobs": njobs, "runs_compared": sum(len(v) for v in a.values()),
+            "fresh_interpreter_hashseed": env["PYTHONHASHSEED"], "harness_workers": [batch.default_workers(), 2],
+            "first_difference": None if same else next(((j, i) for j in a for i, (x, y) in enumerate(zip(a[j], b.get(j, []))) if x != y), "length")}
